@@ -34,14 +34,15 @@ theorem tie_itf8_decode (b : List (BitVec 8)) : Hts.Gen.Itf8.decode b = Hts.Mode
     (repeat' split) <;> first | rfl | omega | simp_all
 
 /-- `Encode` writes exactly the model's bytes into the front of `b`, leaves the rest alone and returns
-their number. -/
-theorem tie_itf8_encode (b : List (BitVec 8)) (v : BitVec 32) (h : 5 ≤ b.length) :
+their number — whenever the buffer holds the encoding (`Len(v) ≤ len(b)`); on a shorter buffer Go panics
+with an index error (C11's inventory covers that site), where the generated total function would do nothing. -/
+theorem tie_itf8_encode (b : List (BitVec 8)) (v : BitVec 32) (h : Hts.Model.Itf8.len v ≤ (b.length : Int)) :
     (Hts.Gen.Itf8.encode b v).2 = Hts.Model.Itf8.len v ∧
     (Hts.Gen.Itf8.encode b v).1 = Hts.Model.Itf8.encode v ++ b.drop (Hts.Model.Itf8.encode v).length := by
-  match b, h with
-  | b0 :: b1 :: b2 :: b3 :: b4 :: rest, _ =>
-    unfold Hts.Gen.Itf8.encode Hts.Model.Itf8.len Hts.Model.Itf8.encode
-    (repeat' split) <;> simp_all
+  rcases b with _ | ⟨b0, _ | ⟨b1, _ | ⟨b2, _ | ⟨b3, _ | ⟨b4, rest⟩⟩⟩⟩⟩ <;>
+  (unfold Hts.Gen.Itf8.encode Hts.Model.Itf8.encode
+   unfold Hts.Model.Itf8.len at h ⊢
+   (repeat' split) <;> first | (simp_all; done) | (simp_all; omega))
 
 theorem tie_ltf8_len (v : BitVec 64) : Hts.Gen.Ltf8.len v = Hts.Model.Ltf8.len v := by
   unfold Hts.Gen.Ltf8.len Hts.Model.Ltf8.len; rfl
@@ -55,28 +56,106 @@ theorem tie_ltf8_decode (b : List (BitVec 8)) : Hts.Gen.Ltf8.decode b = Hts.Mode
     simp
     (repeat' split) <;> first | rfl | omega | simp_all
 
-theorem tie_ltf8_encode (b : List (BitVec 8)) (v : BitVec 64) (h : 9 ≤ b.length) :
+theorem tie_ltf8_encode (b : List (BitVec 8)) (v : BitVec 64) (h : Hts.Model.Ltf8.len v ≤ (b.length : Int)) :
     (Hts.Gen.Ltf8.encode b v).2 = Hts.Model.Ltf8.len v ∧
     (Hts.Gen.Ltf8.encode b v).1 = Hts.Model.Ltf8.encode v ++ b.drop (Hts.Model.Ltf8.encode v).length := by
-  match b, h with
-  | b0 :: b1 :: b2 :: b3 :: b4 :: b5 :: b6 :: b7 :: b8 :: rest, _ =>
+  by_cases h0 : v.ult 128#64 = true
+  · have hl : Hts.Model.Ltf8.len v = 1 := by simp [Hts.Model.Ltf8.len, h0]
+    rw [hl] at h
+    rcases b with _ | ⟨b0, rest⟩
+    · simp at h; try omega
     unfold Hts.Gen.Ltf8.encode Hts.Model.Ltf8.len Hts.Model.Ltf8.encode
-    by_cases h0 : v.ult 128#64 = true
-    · simp [h0, List.set, List.drop]
-    by_cases h1 : v.ult 16384#64 = true
-    · simp [h0, h1, List.set, List.drop]
-    by_cases h2 : v.ult 2097152#64 = true
-    · simp [h0, h1, h2, List.set, List.drop]
-    by_cases h3 : v.ult 268435456#64 = true
-    · simp [h0, h1, h2, h3, List.set, List.drop]
-    by_cases h4 : v.ult 34359738368#64 = true
-    · simp [h0, h1, h2, h3, h4, List.set, List.drop]
-    by_cases h5 : v.ult 4398046511104#64 = true
-    · simp [h0, h1, h2, h3, h4, h5, List.set, List.drop]
-    by_cases h6 : v.ult 562949953421312#64 = true
-    · simp [h0, h1, h2, h3, h4, h5, h6, List.set, List.drop]
-    by_cases h7 : v.ult 72057594037927936#64 = true
-    · simp [h0, h1, h2, h3, h4, h5, h6, h7, List.set, List.drop]
+    simp [h0, List.set, List.drop]
+  by_cases h1 : v.ult 16384#64 = true
+  · have hl : Hts.Model.Ltf8.len v = 2 := by simp [Hts.Model.Ltf8.len, h0, h1]
+    rw [hl] at h
+    rcases b with _ | ⟨b0, _ | ⟨b1, rest⟩⟩
+    · simp at h; try omega
+    · simp at h; try omega
+    unfold Hts.Gen.Ltf8.encode Hts.Model.Ltf8.len Hts.Model.Ltf8.encode
+    simp [h0, h1, List.set, List.drop]
+  by_cases h2 : v.ult 2097152#64 = true
+  · have hl : Hts.Model.Ltf8.len v = 3 := by simp [Hts.Model.Ltf8.len, h0, h1, h2]
+    rw [hl] at h
+    rcases b with _ | ⟨b0, _ | ⟨b1, _ | ⟨b2, rest⟩⟩⟩
+    · simp at h; try omega
+    · simp at h; try omega
+    · simp at h; try omega
+    unfold Hts.Gen.Ltf8.encode Hts.Model.Ltf8.len Hts.Model.Ltf8.encode
+    simp [h0, h1, h2, List.set, List.drop]
+  by_cases h3 : v.ult 268435456#64 = true
+  · have hl : Hts.Model.Ltf8.len v = 4 := by simp [Hts.Model.Ltf8.len, h0, h1, h2, h3]
+    rw [hl] at h
+    rcases b with _ | ⟨b0, _ | ⟨b1, _ | ⟨b2, _ | ⟨b3, rest⟩⟩⟩⟩
+    · simp at h; try omega
+    · simp at h; try omega
+    · simp at h; try omega
+    · simp at h; try omega
+    unfold Hts.Gen.Ltf8.encode Hts.Model.Ltf8.len Hts.Model.Ltf8.encode
+    simp [h0, h1, h2, h3, List.set, List.drop]
+  by_cases h4 : v.ult 34359738368#64 = true
+  · have hl : Hts.Model.Ltf8.len v = 5 := by simp [Hts.Model.Ltf8.len, h0, h1, h2, h3, h4]
+    rw [hl] at h
+    rcases b with _ | ⟨b0, _ | ⟨b1, _ | ⟨b2, _ | ⟨b3, _ | ⟨b4, rest⟩⟩⟩⟩⟩
+    · simp at h; try omega
+    · simp at h; try omega
+    · simp at h; try omega
+    · simp at h; try omega
+    · simp at h; try omega
+    unfold Hts.Gen.Ltf8.encode Hts.Model.Ltf8.len Hts.Model.Ltf8.encode
+    simp [h0, h1, h2, h3, h4, List.set, List.drop]
+  by_cases h5 : v.ult 4398046511104#64 = true
+  · have hl : Hts.Model.Ltf8.len v = 6 := by simp [Hts.Model.Ltf8.len, h0, h1, h2, h3, h4, h5]
+    rw [hl] at h
+    rcases b with _ | ⟨b0, _ | ⟨b1, _ | ⟨b2, _ | ⟨b3, _ | ⟨b4, _ | ⟨b5, rest⟩⟩⟩⟩⟩⟩
+    · simp at h; try omega
+    · simp at h; try omega
+    · simp at h; try omega
+    · simp at h; try omega
+    · simp at h; try omega
+    · simp at h; try omega
+    unfold Hts.Gen.Ltf8.encode Hts.Model.Ltf8.len Hts.Model.Ltf8.encode
+    simp [h0, h1, h2, h3, h4, h5, List.set, List.drop]
+  by_cases h6 : v.ult 562949953421312#64 = true
+  · have hl : Hts.Model.Ltf8.len v = 7 := by simp [Hts.Model.Ltf8.len, h0, h1, h2, h3, h4, h5, h6]
+    rw [hl] at h
+    rcases b with _ | ⟨b0, _ | ⟨b1, _ | ⟨b2, _ | ⟨b3, _ | ⟨b4, _ | ⟨b5, _ | ⟨b6, rest⟩⟩⟩⟩⟩⟩⟩
+    · simp at h; try omega
+    · simp at h; try omega
+    · simp at h; try omega
+    · simp at h; try omega
+    · simp at h; try omega
+    · simp at h; try omega
+    · simp at h; try omega
+    unfold Hts.Gen.Ltf8.encode Hts.Model.Ltf8.len Hts.Model.Ltf8.encode
+    simp [h0, h1, h2, h3, h4, h5, h6, List.set, List.drop]
+  by_cases h7 : v.ult 72057594037927936#64 = true
+  · have hl : Hts.Model.Ltf8.len v = 8 := by simp [Hts.Model.Ltf8.len, h0, h1, h2, h3, h4, h5, h6, h7]
+    rw [hl] at h
+    rcases b with _ | ⟨b0, _ | ⟨b1, _ | ⟨b2, _ | ⟨b3, _ | ⟨b4, _ | ⟨b5, _ | ⟨b6, _ | ⟨b7, rest⟩⟩⟩⟩⟩⟩⟩⟩
+    · simp at h; try omega
+    · simp at h; try omega
+    · simp at h; try omega
+    · simp at h; try omega
+    · simp at h; try omega
+    · simp at h; try omega
+    · simp at h; try omega
+    · simp at h; try omega
+    unfold Hts.Gen.Ltf8.encode Hts.Model.Ltf8.len Hts.Model.Ltf8.encode
     simp [h0, h1, h2, h3, h4, h5, h6, h7, List.set, List.drop]
+  have hl : Hts.Model.Ltf8.len v = 9 := by simp [Hts.Model.Ltf8.len, h0, h1, h2, h3, h4, h5, h6, h7]
+  rw [hl] at h
+  rcases b with _ | ⟨b0, _ | ⟨b1, _ | ⟨b2, _ | ⟨b3, _ | ⟨b4, _ | ⟨b5, _ | ⟨b6, _ | ⟨b7, _ | ⟨b8, rest⟩⟩⟩⟩⟩⟩⟩⟩⟩
+  · simp at h; try omega
+  · simp at h; try omega
+  · simp at h; try omega
+  · simp at h; try omega
+  · simp at h; try omega
+  · simp at h; try omega
+  · simp at h; try omega
+  · simp at h; try omega
+  · simp at h; try omega
+  unfold Hts.Gen.Ltf8.encode Hts.Model.Ltf8.len Hts.Model.Ltf8.encode
+  simp [h0, h1, h2, h3, h4, h5, h6, h7, List.set, List.drop]
 
 end Hts.Tie.C20
